@@ -248,7 +248,9 @@ def _c03_normalise(p):
     if p["chan"] == "main":
         # the exec channel: A can close or drop it, B "closes" it by returning from the exec
         if p["closer"] == "b":
-            p["how"] = "end"
+            # ... normally, or (for what would have been a drop-with-callback) by an EOFError leaving the body, which the
+            # worker takes as "connection gone" and does not report: the channel must end all the same
+            p["how"] = "end_eof" if p["how"] == "drop_cb" else "end"
         elif p["how"] == "end":
             p["how"] = "close"
     else:
@@ -280,6 +282,8 @@ def c03_conversation(conv, p):
         c_ops += [["drop", ch]]
     elif p["how"] == "drop_cb":
         c_ops += [["setcallback", ch, f"{closer}:{conv}:cb", True], ["drop", ch]]
+    elif p["how"] == "end_eof":
+        c_ops += [["raise_eof", "body-eof"]]
     if p["closer_receiver"]:
         c_ops.append(["join", "crcv"])
     # ---- peer script
